@@ -126,6 +126,14 @@ func (s *RegionStorage) SaveRegion(region *metapb.Region) error {
 	return nil
 }
 
+// dropFromBatch removes a region from the batch that waits to be flushed, so that
+// a later flush does not bring back a region that is being deleted.
+func (s *RegionStorage) dropFromBatch(region *metapb.Region) {
+	s.mu.Lock()
+	defer s.mu.Unlock()
+	delete(s.batchRegions, regionPath(region.GetId()))
+}
+
 func deleteRegion(kv kv.Base, region *metapb.Region) error {
 	return kv.Remove(regionPath(region.GetId()))
 }
